@@ -64,9 +64,21 @@ impl Datastore {
             what: format!("{file} in datastore"),
             path: path.clone(),
         })?;
-        tokio::fs::write(&path, bytes)
-            .await
-            .context(error::DatastoreCreateSnafu { path: &path })
+        // Write to a temporary file in the same directory and rename it into place, so that a
+        // crash or a failed write never leaves a truncated file behind.
+        let dir = lock.path().to_owned();
+        let target = path.clone();
+        tokio::task::spawn_blocking(move || {
+            use std::io::Write;
+            let mut tmp = tempfile::NamedTempFile::new_in(dir)?;
+            tmp.write_all(&bytes)?;
+            tmp.persist(&target).map_err(|e| e.error)?;
+            Ok(())
+        })
+        .await
+        // We do not cancel the task nor do we expect it to panic
+        .unwrap_or_else(|_| unreachable!())
+        .context(error::DatastoreCreateSnafu { path: &path })
     }
 
     /// Deletes a file from the datastore. This function is thread safe.
